@@ -116,6 +116,8 @@ class Adapter(EnvAdapter):
                    probe_cap=26),
                 _c("r1c3h2a2_s3q3_t40", 1, 3, 2, 2, 3, 3, 40, episodes=3, max_steps=44, policies=polm, probe_every=3),   # 7 x 7 field
                 _c("r1c3h2a2_s0q2_t7", 1, 3, 2, 2, 0, 2, 7, episodes=3, max_steps=10, policies=polm),             # own cell only
+                # a collision on the very step of the time limit (two endings at once)
+                _c("r1c3h1a2_s1q2_t14_ram", 1, 3, 1, 2, 1, 2, 14, episodes=4, max_steps=17, policies=["ram_at_limit"], probe_every=7),
                 # generator-heavy: many resets with many agents on the smallest floor (start cells must be distinct)
                 _c("r1c3h1a6_s1q2_gen", 1, 3, 1, 6, 1, 2, 5, episodes=60, max_steps=0, policies=["random"], props=["C10"]),
                 # INJ: the states of the one-agent TLC model (every start, carrying states on every floor cell), all 5 actions
@@ -146,6 +148,8 @@ class Adapter(EnvAdapter):
             # sensor ranges 0 (the agent sees only its own cell) and 3 (a 7 x 7 field, larger than the small floor), 3 shelf rows
             _c("r1c3h2a2_s0q2_t40", 1, 3, 2, 2, 0, 2, 40, episodes=6, max_steps=44, policies=polm, probe_every=2),
             _c("r1c3h2a2_s3q3_t40", 1, 3, 2, 2, 3, 3, 40, episodes=6, max_steps=44, policies=polm, probe_every=2),
+            _c("r1c3h1a2_s1q2_t14_ram", 1, 3, 1, 2, 1, 2, 14, episodes=12, max_steps=17, policies=["ram_at_limit"], probe_every=7),
+            _c("r1c3h2a3_s1q3_t20_ram", 1, 3, 2, 3, 1, 3, 20, episodes=8, max_steps=23, policies=["ram_at_limit"], probe_every=10),
             # more than 127 shelves (3 x 3 clusters of 2 x 8)
             _c("r3c3h8a3_s1q9_t30", 3, 3, 8, 3, 1, 9, 30, episodes=3, max_steps=34, policies=polm, probe_every=6, probe_cap=30),
             _c("r3c3h2a3_s3q6_t60", 3, 3, 2, 3, 3, 6, 60, episodes=5, max_steps=64, policies=polm, probe_every=3, probe_cap=40),
@@ -166,6 +170,7 @@ class Adapter(EnvAdapter):
         from jumanji.environments.routing.robot_warehouse.generator import RandomGenerator
 
         k = cfg["ctor"]
+        self._time_limit = k["time_limit"]
         if k["gen"] == "default":
             return RobotWarehouse(time_limit=k["time_limit"])
         if "inject" in cfg:
@@ -254,6 +259,24 @@ class Adapter(EnvAdapter):
             return self._purposeful(env, state, rng, eps=0.0, avoid=True, sync=True)
         if policy == "meet":
             return self._meet(env, state, rng)
+        if policy == "ram_at_limit":
+            # the agents seek each other but hold back until the very last step of the episode, then one drives into the
+            # other: a collision and the time limit on the same step
+            T = self._time_limit
+            step = int(np.asarray(state.step_count))
+            ca = self._collision_actions(env, state, rng)
+            if step >= T - 1 and ca:
+                return ca[0]
+            act = self._meet(env, state, np.random.default_rng(1))     # (deterministic: no random quarter)
+            pos = np.stack([np.asarray(state.agents.position.x), np.asarray(state.agents.position.y)], axis=1)
+            dirs = np.asarray(state.agents.direction)
+            cell = [(int(q[0]), int(q[1])) for q in pos]
+            tgt = [(cell[k][0] + DELTA[int(dirs[k])][0], cell[k][1] + DELTA[int(dirs[k])][1]) if act[k] == FORWARD else cell[k]
+                   for k in range(len(cell))]
+            for k in range(len(cell)):
+                if act[k] == FORWARD and any(j != k and (tgt[k] == cell[j] or tgt[k] == tgt[j]) for j in range(len(cell))):
+                    act[k] = NOOP
+            return act
         if policy == "carrier":
             return self._carrier(env, state, rng)
         return super().choose(policy, env, state, obs, rng, i)
